@@ -137,7 +137,16 @@ func H08_unlock() {
 	if refuseLock {
 		up.failAt = up.calls
 	}
+	p0 := append([]byte(nil), p...)
+	vFreeze("C08.passphrase-argument-not-modified", p)
 	err := s.Lock(p)
+	vCheckFrozen()
+	vThaw()
+	// the caller wipes its buffer once the call has returned
+	for i := range p {
+		p[i] = 0xAA
+	}
+	p = p0
 	if refuseLock {
 		vAssert(err != nil, "C08.refused-lock-is-an-error")
 		vAssert(!mwPeek || !mwLocked(s), "C08.refused-lock-leaves-shim-unlocked")
